@@ -164,12 +164,12 @@ func burst(name string, failBlock int) *sched.Scenario {
 // (an indexer that restarts, or a publisher that re-announces its head, sends
 // exactly that), which must neither produce a sync nor keep later
 // announcements from being handled.
-func burstOf(name string, failBlock int, heads []int) *sched.Scenario {
+func burstOf(name string, failBlock int, heads []int, so ...dagsync.Option) *sched.Scenario {
 	last := heads[len(heads)-1]
 	return &sched.Scenario{
 		Name: name,
 		Setup: func(e *sched.Exec) ([]sched.Thread, func()) {
-			w := schedfx.New(e, schedfx.Options{Pubs: 1, ChainLen: 4, Announce: true})
+			w := schedfx.New(e, schedfx.Options{Pubs: 1, ChainLen: 4, Announce: true, SubOpts: so})
 			if failBlock >= 0 {
 				w.FailReq[fmt.Sprintf("0|%d|0", failBlock)] = true
 			}
@@ -388,7 +388,7 @@ func scoped() *sched.Scenario {
 
 func TestCheck(t *testing.T) {
 	r := vp.New("C08", "model_checking",
-		"scenarios over the real subscriber built with the instrumentation overlay (gated in-memory publishers, chains of 3-4 signed ads, first ad pre-synced): S1 burst of 3 announcements to one publisher; S2 the same with a failing block request; S3 k publishers x 2 announcements with MaxAsyncConcurrency unset/1/2; S4 announcements plus an explicit sync (queried head) of the same publisher; S5 two explicit syncs of one publisher with different scoped hooks. All interleavings of harness threads, library goroutines (watcher, per-announcement handler, distributor), publisher requests and hook calls at the scheduling points (every lock, atomic, channel operation, select, spawn, request, hook call, observation) up to the preemption bound. states = distinct decision states; transitions = scheduling steps; traces = executions of the real code.",
+		"scenarios over the real subscriber built with the instrumentation overlay (gated in-memory publishers, chains of 3-4 signed ads, first ad pre-synced): S1 burst of 3 announcements to one publisher; S2 the same with a failing block request; S3 k publishers x 2 announcements with MaxAsyncConcurrency unset/1/2; S4 announcements plus an explicit sync (queried head) of the same publisher; S5 two explicit syncs of one publisher with different scoped hooks; S8 the burst of S1 under MaxAsyncConcurrency(2), i.e. with free slots. All interleavings of harness threads, library goroutines (watcher, per-announcement handler, distributor), publisher requests and hook calls at the scheduling points (every lock, atomic, channel operation, select, spawn, request, hook call, observation) up to the preemption bound. states = distinct decision states; transitions = scheduling steps; traces = executions of the real code.",
 		"cooperative scheduling at synchronization operations; select statements try cases in source order; bursts of 3 announcements, at most 3 publishers",
 		"discovery requests are made in a free-running warm-up sync before the explored part",
 	)
@@ -399,7 +399,10 @@ func TestCheck(t *testing.T) {
 	}()
 	thorough := vp.Thorough()
 	bound := 2
-	scs := []*sched.Scenario{burstOf("S6b-reannounce-synced-head-then-one-new", -1, []int{0, 1}), burstOf("S6-reannounce-synced-head-then-new", -1, []int{0, 1, 2}), multiOf(3, 1, 1, true), burst("S1-burst", -1), multi(2, 0), multi(2, 1), mixed(), scoped()}
+	// S8: the burst of S1 under a limit of concurrent announce-triggered syncs
+	// that leaves slots free (one publisher, limit 2): announcements of one
+	// publisher are handled one after the other whatever the limit is
+	scs := []*sched.Scenario{burstOf("S6b-reannounce-synced-head-then-one-new", -1, []int{0, 1}), burstOf("S6-reannounce-synced-head-then-new", -1, []int{0, 1, 2}), multiOf(3, 1, 1, true), burst("S1-burst", -1), burstOf("S8-burst-limit2", -1, []int{1, 2, 3}, dagsync.MaxAsyncConcurrency(2)), multi(2, 0), multi(2, 1), mixed(), scoped()}
 	if thorough {
 		scs = append(scs, burst("S2-burst-failing-request", 2), multi(2, 2), multi(3, 1), multi(3, 2))
 	}
